@@ -54,6 +54,7 @@ SPEC = {
     'in_axes / out_axes prefix trees of depth one (one entry for all, or one per argument / result); pmap, shard_map, custom_vjp do not run in this sandbox',
   ],
   'model_partial': [
+    'scan Carry argument holding SEVERAL distinct graph nodes (tuple / list / dict of 2-3 modules mixed with arrays): the Lean model has one carried node; the FIFO hand-back of carry NodeDefs (_insert_nodedefs popleft - the same deque discipline as scan_broadcast_leaves_fifo) is tied by the two-voice stream scan_carry_tree only (real nnx.scan vs Python loop: final state of EACH carried object, out[i] is m_i, carried arrays, ys, both succeed), not by a theorem',
     'scan_eq_loop_nnx: soundness direction, with n = the common size of every scanned leaf along its axis (and `length` if given). Converse: proved up to the calls (scan_no_rejection_before_loop: consistent aliasing + equal scanned sizes => _scan_split_in accepts, lax.scan finds n, every index can be sliced, and by scan_iteration_sees every iteration calls the function on the Python loop\'s values); scan_rejects_iff is NOT proved for the causes arising inside / after the loop: the traced function failing, _check_carry_same_references (characterised exactly on its own: scan_carry_refs_checked), lax.scan\'s carry-structure check (a carried Variable or the array carry changing shape - a rejection the reference loop does not have), out_axes arity / missing axis on results, jnp.stack of per-iteration values of unequal shapes; those are tied by the correspondence run (error kinds carry_refs, out_none, multiple_carry, carry_mismatch, length_mismatch, arity) only',
     'vmap_eq_per_index + vmap_accepts_iff / vmap_rejects_iff: complete on the model - nnx.vmap returns iff VmapAccepts (no Carry / bare StateAxes in the axes, positive unbatchedness verdict, in_axes matching the arguments, every occurrence of every Variable an axis and the same one, all mapped leaves of one size n with axis_size = n if given and something mapped if not, vmapSpecN n defined), and then returns the reference\'s result. Remaining assumptions only: jax\'s unbatchedness check enters by its verdict; the single-trace hypothesis TraceUniform (all indices return equally many results of the same kinds, fresh nodes with the same Variables and distinct paths); foreign JAX error classes are compared by the correspondence run',
     'grad_value_aux_effects_once / grad_depends_on_extension_only: everything up to the call of jax.value_and_grad and after it is proved; that the returned numbers are the derivative is assumption A-AD (label: partial); the identification of GradFn\'s merged input with "selected leaves from the argument, unselected closed over" is by definition of gradFn/gradMergeAll and checked by correspondence, not restated per Variable',
@@ -1742,6 +1743,141 @@ def check_split_rngs(ctx, rng, n_cases):
 
 
 # ------------------------------------------------------------------------------------------------
+# scan: Carry argument that is a pytree holding several distinct graph nodes (and arrays)
+# ------------------------------------------------------------------------------------------------
+# _scan_split_out pushes one NodeDef per carried node on a deque; _insert_nodedefs hands them back in the
+# same order (FIFO) so that every carried object receives ITS final state and the returned carry holds the
+# caller's objects at their positions.  Two voices here (real nnx.scan vs the Python loop): the Lean model has
+# a single carried node (documented in model_partial).
+
+
+def gen_carry_tree_case(rng):
+  k = rng.choice([2, 2, 3])
+  same = rng.random() < 0.5
+  base_attrs = sorted(rng.sample(ATTRS, rng.randint(1, 2)))
+  base_types = [rng.choice(VT_NAMES) for _ in base_attrs]
+  nodes = []
+  for j in range(k):
+    if same or j == 0:
+      attrs, types = base_attrs, base_types
+    else:
+      while True:
+        attrs = sorted(rng.sample(ATTRS, rng.randint(1, 3)))
+        types = [rng.choice(VT_NAMES) for _ in attrs]
+        if (attrs, types) != (base_attrs, base_types):
+          break
+    nodes.append({'attrs': [[a, t, rng.randint(-4, 4) + 10 * j] for a, t in zip(attrs, types)], 'coef': [rng.choice([1, 1, 2]), rng.randint(-2, 2), 3 * j + rng.randint(0, 2)]})
+  n_arr = rng.choice([0, 0, 1, 2])
+  elems = [['node', j] for j in range(k)] + [['arr', rng.randint(-3, 3)] for _ in range(n_arr)]
+  if n_arr:
+    rng.shuffle(elems)
+  n = rng.randint(2, 4)
+  return {
+    't': 'scan_carry_tree', 'nodes': nodes, 'elems': elems, 'container': rng.choice(['tuple', 'list', 'dict']),
+    'xs': [rng.randint(-3, 3) for _ in range(n)], 'reverse': rng.random() < 0.4, 'carry_first': rng.random() < 0.7,
+    'same_structure': same,
+  }
+
+
+def _carry_tree_objs(case):
+  mods = []
+  for nd in case['nodes']:
+    m = Mod()
+    for a, t, v in nd['attrs']:
+      setattr(m, a, VT[t](jnp.asarray(float(v), jnp.float32)))
+    mods.append(m)
+  elems = [mods[e[1]] if e[0] == 'node' else jnp.asarray(float(e[1]), jnp.float32) for e in case['elems']]
+  return mods, _carry_tree_pack(case, elems)
+
+
+def _carry_tree_pack(case, elems):
+  c = case['container']
+  if c == 'tuple':
+    return tuple(elems)
+  if c == 'list':
+    return list(elems)
+  return {f'k{i}': e for i, e in enumerate(elems)}
+
+
+def _carry_tree_unpack(case, carry):
+  if case['container'] == 'dict':
+    return [carry[f'k{i}'] for i in range(len(case['elems']))]
+  return list(carry)
+
+
+def _carry_tree_body(case):
+  def body(carry, x):
+    elems = _carry_tree_unpack(case, carry)
+    out, y = [], jnp.asarray(0.0, jnp.float32)
+    for i, (e, spec) in enumerate(zip(elems, case['elems'])):
+      if spec[0] == 'node':
+        nd = case['nodes'][spec[1]]
+        mul, bx, c = nd['coef']
+        for t_, (a, _t, _v) in enumerate(nd['attrs']):
+          var = getattr(e, a)
+          var.value = var.value * mul + x * bx + (c + t_)
+        y = y + getattr(e, nd['attrs'][0][0]).value * (i + 1)
+        out.append(e)
+      else:
+        e = e * 2 + x * (i + 1)
+        y = y + e
+        out.append(e)
+    return _carry_tree_pack(case, out), y
+
+  if case['carry_first']:
+    return body
+  return lambda x, carry: body(carry, x)
+
+
+def _carry_tree_states(case, mods):
+  return [[int(np.asarray(getattr(m, a).value)) for a, _t, _v in nd['attrs']] for m, nd in zip(mods, case['nodes'])]
+
+
+def check_scan_carry_tree(ctx, rng, n_cases, cases=None):
+  cases = cases if cases is not None else [gen_carry_tree_case(rng) for _ in range(n_cases)]
+  for case in cases:
+    form = pick_form(ctx, case, 'scan_carry_tree')
+    ctx.case(case, nontrivial=True)
+    k = len(case['nodes'])
+    n_arr = len(case['elems']) - k
+    ctx.count('scan_carry_tree', f"nodes={k}:{'same' if case['same_structure'] else 'different'}-structure:arrays={n_arr}:{case['container']}")
+    body = _carry_tree_body(case)
+    xs = jnp.asarray(case['xs'], jnp.float32)
+    n = len(case['xs'])
+    # reference: the Python loop in processing order on fresh objects of the same recipe
+    rmods, rc = _carry_tree_objs(case)
+    want_ys = [None] * n
+    for i in (range(n - 1, -1, -1) if case['reverse'] else range(n)):
+      rc, y = body(rc, xs[i]) if case['carry_first'] else body(xs[i], rc)
+      want_ys[i] = int(np.asarray(y))
+    want_states = _carry_tree_states(case, rmods)
+    want_arrs = [int(np.asarray(e)) for e, sp in zip(_carry_tree_unpack(case, rc), case['elems']) if sp[0] == 'arr']
+    # real
+    mods, c0 = _carry_tree_objs(case)
+    ax = (nnx.Carry, 0) if case['carry_first'] else (0, nnx.Carry)
+    try:
+      tr = construct(nnx.scan, body, form, in_axes=ax, out_axes=(nnx.Carry, 0), reverse=case['reverse'])
+      out_c, ys = tr(c0, xs) if case['carry_first'] else tr(xs, c0)
+    except Exception as e:
+      ctx.violation('scan-carry-tree-raises-on-valid', f'nnx.scan with a Carry {case["container"]} holding {k} graph nodes ({"same" if case["same_structure"] else "different"} structure) and {n_arr} arrays raised {exc_class(e)}: {str(e)[:200]}; the Python loop runs and leaves node states {want_states}', case)
+      continue
+    got_states = _carry_tree_states(case, mods)
+    got_elems = _carry_tree_unpack(case, out_c)
+    ident = [next((j for j, m in enumerate(mods) if e is m), None) if sp[0] == 'node' else None for e, sp in zip(got_elems, case['elems'])]
+    want_ident = [sp[1] if sp[0] == 'node' else None for sp in case['elems']]
+    got_arrs = [int(np.asarray(e)) for e, sp in zip(got_elems, case['elems']) if sp[0] == 'arr']
+    got_ys = [int(v) for v in np.asarray(ys).tolist()]
+    if got_states != want_states:
+      ctx.violation('scan-carry-tree-state-differs', f'after nnx.scan over xs={case["xs"]} (reverse={case["reverse"]}) with Carry {case["container"]} of {k} nodes the carried objects hold {got_states}; the Python loop leaves {want_states}', case)
+    elif ident != want_ident:
+      ctx.violation('scan-carry-tree-identity', f'returned carry holds the caller\'s nodes at positions {ident}, expected {want_ident} (out[i] is m_i)', case)
+    elif got_ys != want_ys or got_arrs != want_arrs:
+      ctx.violation('scan-carry-tree-output-differs', f'ys={got_ys} carried arrays={got_arrs}; the Python loop gives ys={want_ys} arrays={want_arrs}', case)
+    else:
+      ctx.count('scan_carry_tree_result', 'ok')
+
+
+# ------------------------------------------------------------------------------------------------
 # entry points
 # ------------------------------------------------------------------------------------------------
 
@@ -1784,6 +1920,7 @@ def run(ctx):
   for i in range(0, len(gr), 60):
     check_grad(ctx, drv, gr[i : i + 60])
   check_split_rngs(ctx, rng, 6 if not thorough else 60)
+  check_scan_carry_tree(ctx, rng, 12 if not thorough else 300)
 
   for c in (vm[:1] + sc[:1] + gr[:1]):
     ctx.sample(recipe_json(c))
@@ -1809,6 +1946,8 @@ def _run_case(ctx, drv, obj):
     check_scan(ctx, drv, [case])
   elif t == 'grad':
     check_grad(ctx, drv, [case])
+  elif t == 'scan_carry_tree':
+    check_scan_carry_tree(ctx, None, 0, cases=[case])
   elif t in ('map_prefix', 'aliasing', 'scan_setup', 'split_rngs'):
     import random as _r
 
